@@ -1160,3 +1160,111 @@ def pauli_rep_letters(ix, cls: ClassInfo):
     if not words:
         return None
     return letters - {"I"}, words
+
+
+# ---------------------------------------------------------------------------------------------
+# invariance of a (symbolic) matrix under permutations of its qubits (R-C07-symm)
+
+
+def square_arrays(ix, cls: ClassInfo):
+    """-> (list of concrete square 2**n x 2**n trigdom ``Arr`` return values of compute_matrix, n, all_paths_concrete)
+    or (None, None, False) when no return path is such an array"""
+    from . import trigdom as T
+
+    rets = matrix_returns(ix, cls)
+    if not rets:
+        return None, None, False
+    arrs = [r for r in rets if isinstance(r, T.Arr) and r.rank == 2 and r.shape[0] == r.shape[1]]
+    dims = {a.shape[0] for a in arrs}
+    if len(dims) != 1:
+        return None, None, False
+    d = dims.pop()
+    n = d.bit_length() - 1
+    if d < 2 or (1 << n) != d:
+        return None, None, False
+    return arrs, n, len(arrs) == len(rets)
+
+
+def _atom_relation(a, b):
+    """two trigdom atoms (Poly) as functions of the gate parameters: 'equal' / 'differ' / 'unknown'.
+    Exponentials with distinct frequency keys are linearly independent, so two polynomials whose
+    coefficients are all exact are equal iff their term tables are equal; with opaque non-zero constants
+    (``U``) only a difference of the key sets is conclusive; a possibly vanishing constant (``UZ``) decides nothing."""
+    from . import trigdom as T
+
+    if not isinstance(a, T.Poly) or not isinstance(b, T.Poly):
+        return "unknown"
+    ca, cb = list(a.terms.values()), list(b.terms.values())
+    if all(isinstance(c, T.Cx) for c in ca + cb):
+        return "equal" if a == b else "differ"
+    if any(c == T.UZ for c in ca + cb):
+        return "unknown"
+    if set(a.terms) != set(b.terms):
+        return "differ"
+    for k, c in a.terms.items():  # same keys: an exact coefficient against a different exact one on some key
+        d = b.terms[k]
+        if isinstance(c, T.Cx) and isinstance(d, T.Cx) and c != d:
+            return "differ"
+    return "unknown"
+
+
+def entry_relation(sa, sb):
+    """two trigdom ``Sc`` entries: 'equal' only for single sure alternatives that are equal; 'differ' when
+    every pair of alternatives provably differs"""
+    from . import trigdom as T
+
+    if not isinstance(sa, T.Sc) or not isinstance(sb, T.Sc) or not sa.alts or not sb.alts:
+        return "unknown"
+    rels = {_atom_relation(x, y) for x in sa.alts for y in sb.alts}
+    if rels == {"differ"}:
+        return "differ"
+    if rels == {"equal"} and len(sa.alts) == 1 and len(sb.alts) == 1:
+        return "equal"
+    return "unknown"
+
+
+def _swap_bits(i, a, b, n):
+    """index with qubits a and b exchanged (qubit 0 = most significant bit of the basis index)"""
+    pa, pb = n - 1 - a, n - 1 - b
+    ba, bb = (i >> pa) & 1, (i >> pb) & 1
+    if ba != bb:
+        i ^= (1 << pa) | (1 << pb)
+    return i
+
+
+def qubit_symmetry(arr, n, pairs):
+    """is the 2**n x 2**n array invariant under each transposition (a, b) of qubits in ``pairs``?
+    -> ("invariant", None) | ("differs", (a, b, i, j, i', j', entry, permuted entry)) | ("unknown", (a, b, i, j))"""
+    d = 1 << n
+    unknown = None
+    for a, b in pairs:
+        for i in range(d):
+            pi = _swap_bits(i, a, b, n)
+            for j in range(d):
+                pj = _swap_bits(j, a, b, n)
+                if (pi, pj) <= (i, j):
+                    continue
+                x, y = arr.flat[i * d + j], arr.flat[pi * d + pj]
+                if x is y or (x == y and len(getattr(x, "alts", ())) == 1 and entry_relation(x, y) == "equal"):
+                    continue
+                rel = entry_relation(x, y)
+                if rel == "differ":
+                    return "differs", (a, b, i, j, pi, pj, x, y)
+                if rel == "unknown" and unknown is None:
+                    unknown = (a, b, i, j)
+    if unknown is not None:
+        return "unknown", unknown
+    return "invariant", None
+
+
+def control_qubits(ix, cls: ClassInfo):
+    """number of control qubits of a ``Controlled2`` subclass: literal ``num_wires`` of the class minus the literal
+    ``num_wires`` of the operator handed to ``super().__init__`` (controls come first, the target(s) last); None when
+    this cannot be read"""
+    b = _ctrl_base_class(ix, cls)
+    if b is None or not any(c.name in _CONTROLLED_GENERIC for c in cls.mro()):
+        return None
+    n, nb = _int_literal_attr(cls, "num_wires"), _int_literal_attr(b, "num_wires")
+    if n is None or nb is None or nb < 1 or n <= nb:
+        return None
+    return n - nb
